@@ -68,6 +68,19 @@ IWs == Seqs01(WCs) \cup Seqs2(WCs)
 UIs == { <<<<"a",1>>>>, <<<<"a",0>>>>, <<<<"a",9>>>> }
 TNs == { <<"a">> }
 ActsC03sl == {"set","update","trigger","batch","unwatch"}
+\* directed configuration: a queued watcher on a, an ordinary one on a after it, and a watcher on b -- so that a
+\* callback of the second can make (and catch the failure of) an assignment while the first one's events are queued
+WCnest == { [ps |-> <<"a">>, oc |-> TRUE, q |-> TRUE,  prec |-> 0],
+            [ps |-> <<"a">>, oc |-> TRUE, q |-> FALSE, prec |-> 1],
+            [ps |-> <<"b">>, oc |-> TRUE, q |-> FALSE, prec |-> 0] }
+IWnest == { << [ps |-> <<"a">>, oc |-> TRUE, q |-> TRUE,  prec |-> 0], [ps |-> <<"a">>, oc |-> TRUE, q |-> FALSE, prec |-> 1],
+               [ps |-> <<"b">>, oc |-> TRUE, q |-> FALSE, prec |-> 0] >> }
+ActsNest == {"set", "raise"}
+\* the same for Parameter-attribute watchers
+WCsnest == { [ps |-> <<"sa">>, oc |-> TRUE, q |-> TRUE,  prec |-> 0], [ps |-> <<"sa">>, oc |-> TRUE, q |-> FALSE, prec |-> 0],
+             [ps |-> <<"a">>,  oc |-> TRUE, q |-> FALSE, prec |-> 0] }
+IWsnest == { << [ps |-> <<"sa">>, oc |-> TRUE, q |-> TRUE,  prec |-> 0], [ps |-> <<"sa">>, oc |-> TRUE, q |-> FALSE, prec |-> 0],
+                [ps |-> <<"a">>,  oc |-> TRUE, q |-> FALSE, prec |-> 0] >> }
 ActsC02 == {"set","update","batch","watch"}
 ActsC03s == {"watch","set","update"}
 ActsAll == {"watch","unwatch","set","update","updatectx","trigger","batch","discard","raise","raisebody"}
